@@ -1458,6 +1458,117 @@ def run_c18(ctx):
                 res.samples.append({"json": sc["json"][:400], "text": (r0.get("text") or "")[:400]})
     return res
 
+
+# ---- C20: loaders on arbitrary input -------------------------------------------------------------------
+
+C20_TIME_MS = lambda n: 3000.0 + 5.0 * n            # wall time budget for an input of n bytes
+C20_ALLOC = lambda n: (64 << 20) + (64 << 10) * n   # bytes the loader may allocate in total (runtime.MemStats.TotalAlloc)
+
+
+def c20_bases(ctx, rng):
+    """valid inputs of the four kinds"""
+    import gen_json
+    import gen_syntax
+    bases = {"grl": [], "jsonrule": [], "jsonfact": [], "grb": []}
+    store = []
+    for i in range(ctx.n(12, 60)):
+        r = rng.fork()
+        sc = gen.engine_scenario(r, "c20b-%d" % i, r.choice(["stable", "wild"]), nexec=0, wm=False)
+        text = sc["ops"][0]["text"]
+        bases["grl"].append(text.encode())
+        if i % 2 == 0:
+            rd = gen_syntax.Render(r.fork(), exotic=True)
+            bases["grl"].append(rd.join(rd.doc(sc["ops"][0]["rules"])).encode())
+        bases["jsonrule"].append(gen_json.scenario(r.fork(), "x")["json"].encode())
+        store.append({"id": "c20s-%d" % i, "ops": [o for o in sc["ops"] if o.get("op") == "build"] + [{"op": "store", "lib": "L", "kb": "K", "as": "s", "hex": True}]})
+        facts = {"n": r.range(-5, 5), "f": 1.5, "s": r.choice(["", "a", "é\n"]), "b": r.chance(0.5), "o": {"x": [1, 2, {"y": None}]}, "a": list(range(r.range(0, 6))),
+                 "big": 2 ** 53, "e": 1e300, "neg": -0.0}
+        bases["jsonfact"].append(json.dumps(facts).encode())
+    for g in pl.run_go(store, jobs=ctx.jobs):
+        h = (g.get("res") or [{}])[-1].get("hex")
+        if h:
+            bases["grb"].append(bytes.fromhex(h))
+    return bases
+
+
+def run_c20(ctx):
+    import gen_bytes
+    res = Result()
+    res.rule = ("each of the four loaders (BuildRuleFromResource on GRL text, JSONResource+builder on JSON rule text, DataContext.AddJSON on JSON fact text, "
+                "LoadKnowledgeBaseFromReader on a binary stream) runs in a child process with a capped address space (8 GiB) and a per-input wall-clock limit "
+                "on: random bytes; valid inputs; and structure-aware mutants of valid inputs (bit flips, byte edits, inserts incl. quotes/brackets/comment "
+                "openers/broken UTF-8, deletions, truncation at any offset, splicing, repeated ranges, boundary numbers in text and in 8-byte fields, edits "
+                "of length/count fields, nesting bombs). Observation per input: result or error, recovered panic, process death, wall time, bytes allocated "
+                "(MemStats.TotalAlloc). Budgets: time <= 3 s + 5 ms/byte, allocation <= 64 MiB + 64 KiB/byte. non-trivial = distinct mutated inputs")
+    rng = Rng(ctx.seed * 49979693 + 20)
+    if ctx.tier == "thorough":
+        gen_bytes.DEPTHS = [10, 100, 300, 600]
+    bases = c20_bases(ctx, rng)
+    scs = []
+    per = ctx.n(400, 6000)
+    for kind in ("grl", "jsonrule", "jsonfact", "grb"):
+        pool = bases[kind]
+        for b in pool:
+            scs.append((kind, b, "valid"))
+        for i in range(per):
+            r = rng.fork()
+            if i % 10 == 0:
+                scs.append((kind, gen_bytes.random_bytes(r, r.choice([0, 1, 2, 7, 8, 9, 16, 64, 300, 2000])), "random"))
+                continue
+            d = r.choice(pool) if pool else b""
+            how = []
+            for _ in range(r.weighted([(1, 6), (2, 3), (3, 1)])):
+                d, m = gen_bytes.mutate(r, d, kind, pool)
+                how.append(m)
+            scs.append((kind, gen_bytes.cap(d), "+".join(how)))
+    for w in corpus(ctx.prop):
+        scs.append((w["kind"], bytes.fromhex(w["hex"]), "witness:" + w["id"]))
+    jobs = [{"id": "c20-%d" % i, "ops": [{"op": "loader", "kind": k, "hex": d.hex()}]} for i, (k, d, how) in enumerate(scs)]
+    out = pl.run_isolated(jobs, timeout=ctx.n(30.0, 90.0), jobs=min(ctx.jobs, 8))
+    worst = {}
+    for (kind, data, how), r in zip(scs, out):
+        res.evaluations += 1
+        res.count("kind:" + kind)
+        for m in how.split("+"):
+            res.count("mutation:" + m.split(":")[0])
+        key = (kind, data)
+        if how != "valid" and key not in res._distinct:
+            res._distinct.add(key)
+            res.distinct_nontrivial += 1
+        n = len(data)
+        depth, chain = gen_bytes.shape(data, kind)
+        if kind == "jsonrule":
+            d2, c2 = gen_bytes.shape_grl(data)      # raw GRL inside strings
+            depth, chain = max(depth, d2), max(chain, c2)
+        structured = kind in ("grl", "jsonrule") and (depth >= 40 or chain >= 40)
+        witness = {"id": "w", "kind": kind, "hex": data.hex(), "how": how, "n": n, "nesting": depth, "chain": chain}
+        if "res" not in r:
+            what = "hang" if r.get("hang") else "crash"
+            sig = "cost:%s:deep-or-long-expression" % kind if (what == "hang" and structured) else "%s:%s" % (what, kind)
+            res.violations.append({"signature": sig, "detail": "%s loader: process %s on %d bytes (%s; nesting %d, chain %d): %s" % (
+                kind, "did not answer within the limit" if what == "hang" else "died", n, how, depth, chain, (r.get("stderr") or "")[-300:]), "scenario": witness})
+            continue
+        x = r["res"][0]
+        res.count("outcome:" + ("panic" if "panic" in x else "error" if x.get("err") else "ok"))
+        if "panic" in x:
+            res.violations.append({"signature": "panic:%s" % kind, "detail": "%s loader panics (%s) on %d bytes (%s)" % (kind, x["panic"][:200], n, how), "scenario": witness})
+            continue
+        ms, al = x.get("ms", 0.0), x.get("alloc", 0)
+        w = worst.setdefault(kind, {"ms_per_byte": 0.0, "alloc_per_byte": 0.0})
+        if not structured and n >= 64:
+            w["ms_per_byte"] = max(w["ms_per_byte"], ms / n)
+            w["alloc_per_byte"] = max(w["alloc_per_byte"], al / n)
+        if ms > C20_TIME_MS(n) or al > C20_ALLOC(n):
+            sig = "cost:%s:deep-or-long-expression" % kind if structured else "cost:%s" % kind
+            res.violations.append({"signature": sig, "scenario": witness,
+                                   "detail": "%s loader: %.0f ms and %.1f MiB allocated for %d bytes (%s; nesting %d, chain %d); budget %.0f ms, %.1f MiB" % (
+                                       kind, ms, al / 2 ** 20, n, how, depth, chain, C20_TIME_MS(n), C20_ALLOC(n) / 2 ** 20)})
+    for k, w in worst.items():
+        res.distribution["worst-ms-per-byte:" + k] = round(w["ms_per_byte"], 4)
+        res.distribution["worst-alloc-per-byte:" + k] = int(w["alloc_per_byte"])
+    res.samples = [{"kind": k, "how": how, "n": len(d)} for (k, d, how) in scs[:3]]
+    return res
+
 PROPS = {}
 
 
@@ -1485,3 +1596,4 @@ prop("C08", run=lambda ctx: run_engine_generic(ctx, owners=["C08", "C11"]))
 prop("C17", run=run_c17)
 prop("C05", run=run_c05)
 prop("C18", run=run_c18)
+prop("C20", run=run_c20)
